@@ -63,6 +63,8 @@ def sx_prog(p):
         return f"(orelse {sx_prog(p[1])} {sx_prog(p[2])})"
     if op in ("accumulate", "reduce", "masked_iterate", "masked_iterate_final"):
         return f"({op} {sx_prog(p[1])})"
+    if op == "closure":
+        return f"(closure {sx_prog(p[1])} ({' '.join(str(x) for x in p[2])}) {p[3]})"
     raise ValueError(p)
 
 
@@ -99,6 +101,13 @@ def sx_op(op):
         return f"(regen {op[1]} {sx_sel(op[2])} {gfi.show_val(op[3])})"
     if k == "proj":
         return f"(proj {sx_sel(op[1])})"
+    if k == "propose":
+        return f"(propose {op[1]} {gfi.show_val(op[2])})"
+    if k == "empty":
+        nochange = all(t == "N" for t in op[3])
+        return f"(empty {op[1]} {gfi.show_val(op[2])} {'T' if nochange else 'F'} {'T' if (op[3] and op[3][0] == 'U') else 'F'})"
+    if k == "subtrace":
+        return "(subtrace " + " ".join(op[1]) + ")"
     raise ValueError(op)
 
 
@@ -130,6 +139,8 @@ def parse_model(resp):
                 o["ret"] = gfi.canon_val(gfi.parse_val(part[1]))
             elif tag == "bwd":
                 o["bwd"] = gfi.canon_choices(gfi.parse_cmap(part[1]))
+            elif tag == "choices":
+                o["choices"] = gfi.canon_choices(gfi.parse_cmap(part[1]))
             elif tag == "bwdok":
                 o["bwdok"] = part[1] == "T"
         out.append(o)
@@ -159,6 +170,8 @@ def diff_op(mo, im):
         d.append(f"weight: model={mo['w']} impl={im.get('w')}")
     if "ret" in mo and mo["ret"] != im.get("ret"):
         d.append(f"assess retval: model={mo['ret']} impl={im.get('ret')}")
+    if "choices" in mo and mo["choices"] != im.get("choices"):
+        d.append(f"choices: model={mo['choices']} impl={im.get('choices')}")
     if "bwd" in mo and mo.get("bwdok", True) and "bwd" in im and mo["bwd"] != im["bwd"]:
         d.append(f"bwd: model={mo['bwd']} impl={im['bwd']}")
     return d
@@ -190,13 +203,19 @@ def make_case(g: G, depth, opts):
         ops.append(["sim", seed, args])
     nested_switch = has_node(prog[1:], SWITCHY) and not _switch_ok_for_update(prog)
     kinds, ws = [], []
-    for k, w in (("assessSelf", 1.0), ("upd", 1.0), ("regen", 1.0), ("proj", 1.0), ("gen", 0.3), ("assess", 0.5)):
+    static_addrs = _top_static_addrs(prog)
+    for k, w in (("assessSelf", 1.0), ("upd", 1.0), ("regen", 1.0), ("proj", 1.0), ("gen", 0.3), ("assess", 0.5),
+                 ("propose", 0.0), ("empty", 0.0), ("subtrace", 0.0)):
         w = opts.get(k, w)
         if k == "upd" and nested_switch:
             w = 0
         if k == "regen" and has_node(prog, NO_REGEN) and r.random() < 0.85:
             w = 0
         if k == "proj" and has_node(prog, NO_PROJECT) and r.random() < 0.85:
+            w = 0
+        if k == "empty" and nested_switch:
+            w = 0
+        if k == "subtrace" and not static_addrs:
             w = 0
         if w > 0:
             kinds.append(k)
@@ -210,7 +229,10 @@ def make_case(g: G, depth, opts):
             ops.append(["assessSelf"])
         elif k == "assess":
             c_full = g.constraint(universe, coverage=1.0, bogus=0.0)
-            if len(c_full) == len(universe):
+            if opts.get("assess_partial") and not has_node(prog, SWITCHY) and r.random() < opts["assess_partial"]:
+                # a partial sample: both sides must raise MissingAddress (or accept it if nothing is missing)
+                ops.append(["assess", g.constraint(universe, coverage=r.choice([0.0, 0.5, 0.8]), bogus=0.0), cur_args])
+            elif len(c_full) == len(universe):
                 ops.append(["assess", c_full, cur_args])
             else:
                 # branches with incompatible address shapes cannot all be given a sample, and the
@@ -220,6 +242,17 @@ def make_case(g: G, depth, opts):
             ops.append(["gen", s, g.constraint(universe, masked=masked), cur_args])
         elif k == "proj":
             ops.append(["proj", g.selection(universe)])
+        elif k == "propose":
+            ops.append(["propose", s, cur_args])
+        elif k == "subtrace":
+            ops.append(["subtrace", r.choice(static_addrs)])
+        elif k == "empty":
+            keep = r.random() < 0.5
+            new_args = cur_args if keep else _perturb(g, prog, atys, cur_args)
+            same = [a == b for a, b in zip(new_args[1:], cur_args[1:])]
+            tags = ["N" if all(same) and r.random() < 0.7 else "U"] * len(atys)
+            ops.append(["empty", s, new_args, tags])
+            cur_args = new_args
         elif k == "regen":
             ops.append(["regen", s, g.selection(universe), cur_args])
         elif k == "upd":
@@ -243,7 +276,26 @@ def make_case(g: G, depth, opts):
                     btags = ["N" if (sm and r.random() < 0.6) else "U" for sm in bsame]
                 ops.append(["bwd", r.randint(0, 2**31 - 1), back, (btags[0] == "U") if btags else False, btags])
                 cur_args = ops[-1][2]
-    return {"prog": prog, "atys": atys, "ops": ops}
+    case = {"prog": prog, "atys": atys, "ops": ops}
+    if opts.get("retag"):
+        case["retag"] = True
+    if opts.get("jit") and r.random() < opts["jit"]:
+        case["jit"] = True
+    return case
+
+
+def _top_static_addrs(prog):
+    """Addresses traced directly by a top-level static function (through closure / dimap wrappers)."""
+    p = prog
+    while p[0] in ("closure", "map", "contramap", "dimap"):
+        p = p[2] if p[0] in ("dimap", "contramap") else p[1]
+    out = []
+    if p[0] == "static":
+        b = p[1]
+        while b[0] == "bind":
+            out.append(b[1])
+            b = b[4]
+    return out
 
 
 def _prev_args(ops):
@@ -258,6 +310,8 @@ def _prev_args(ops):
             args = op[2]
         elif op[0] == "regen":
             args = op[3]
+        elif op[0] == "empty":
+            args = op[2]
     return args
 
 
@@ -291,7 +345,7 @@ def features(case):
         if isinstance(p, list):
             if p and isinstance(p[0], str) and p[0] in (
                 "dist", "static", "vmap", "scan", "switch", "mask", "dimap", "map", "contramap", "repeat", "orelse",
-                "accumulate", "reduce", "iterate", "iterate_final", "masked_iterate", "masked_iterate_final"):
+                "accumulate", "reduce", "iterate", "iterate_final", "masked_iterate", "masked_iterate_final", "closure"):
                 f.add("prog:" + p[0])
             for x in p:
                 walk(x)
@@ -372,10 +426,35 @@ def signature(case, f):
     """Signature of a predicate failure, for matching against known findings."""
     sig = {"prop": f["prop"], "why": f["why"]}
     prog = case["prog"]
+    if _has_zero_length(case):
+        sig["zero_length"] = True
+    if f["prop"] == "C06":
+        sig = {"prop": "C06"}
+        if has_node(prog, SWITCHY):
+            sig["feature"] = "switch_backward_request"
+        elif has_node(prog, ("mask", "masked_iterate", "masked_iterate_final")):
+            sig["feature"] = "mask_flag_drop_with_constraint"
+        return sig
     for k in ("masked_iterate_final", "masked_iterate", "switch", "orelse", "scan", "mask", "vmap"):
         if has_node(prog, (k,)):
             sig["has_" + k] = True
     return sig
+
+
+def _has_zero_length(case):
+    def ty0(t):
+        return isinstance(t, list) and ((t and t[0] == "arr" and t[1] == 0) or any(ty0(x) for x in t if isinstance(x, list)))
+
+    def p0(p):
+        if isinstance(p, list):
+            if p and p[0] in ("repeat", "iterate", "iterate_final") and p[-1] == 0:
+                return True
+            if p and p[0] == "scan" and p[2] == 0:
+                return True
+            return any(p0(x) for x in p)
+        return False
+
+    return any(ty0(t) for t in case["atys"]) or p0(case["prog"])
 
 
 def _jsonable(x):
